@@ -610,7 +610,8 @@ The proof is the bridge `run (dcallsF d) = semF d` (Proofs/WriterFullCalls.lean:
 exactly what `write_tape` does on `d`'s tape) followed by the chain of `C14_roundtrip_full`.
 
 `CallsOKF`: no parameter blocks (there is no call for them), and no operator behind a container in the
-same array part.  The latter FAILS on the real code (`wcalls … as 1 mm b = c as x e d = e f g e`): the
+same array part.  The latter FAILS on the real code (known finding `mixed-mode-lost-after-container`,
+`C15_known_mixed_mode_lost_after_container`; `wcalls … as 1 mm b = c as x e d = e f g e`): the
 container's `write_end` switches the mixed mode off, the next `write_operator` takes its object branch
 and turns the writer to object mode, and the bare elements `f g` come out as `f=g`. -/
 theorem C15_parse_back_full (d : TextTape.FFields) (gt : Bytes) (c : UInt8) (f : Nat)
@@ -667,6 +668,55 @@ example :
     (match TextTape.parse (run (dcallsF d) (State.init 32 2)).1.out with
      | .ok T false => decide (T.map TextTape.Tok.erase = TextTape.dtapeF d 0 ∧ T.length = 18)
      | _ => false) = true := by
+  decide +kernel
+
+/-- Known finding `mixed-mode-lost-after-container`, on the models.  The writer has ONE `mixed_mode` flag;
+the `write_end` of a container nested in the array part clears it.  The call list
+`a, [, 1, mixed, b = c, [ x ], d = e, f, g, ]` describes the array part `b=c {x} d=e f g`; behind the nested
+container `write_operator` takes its object branch and turns the writer to object mode, so the bare
+elements `f`, `g` are written `f=g` and read back as `f`, `Operator(=)`, `g`.  Root cause: the flag would
+have to be kept per depth (a mixed-mode stack restored by `write_end`). -/
+theorem C15_known_mixed_mode_lost_after_container :
+    (run [.unquoted [97], .arrayStart, .unquoted [49], .mixedMode, .unquoted [98], .operator .eq, .unquoted [99],
+        .arrayStart, .unquoted [120], .end, .unquoted [100], .operator .eq, .unquoted [101],
+        .unquoted [102], .unquoted [103], .end] (State.init 32 2)).1.out =
+      [97, 61, 123, 10, 32, 32, 49, 32, 98, 61, 99, 32, 123, 10, 32, 32, 32, 32, 120, 10, 32, 32, 125, 10,
+       32, 32, 100, 61, 101, 10, 32, 32, 102, 61, 103, 10, 125] ∧
+    TextTape.parse [97, 61, 123, 10, 32, 32, 49, 32, 98, 61, 99, 32, 123, 10, 32, 32, 32, 32, 120, 10, 32, 32, 125, 10,
+       32, 32, 100, 61, 101, 10, 32, 32, 102, 61, 103, 10, 125] =
+      .ok [.unquoted ⟨37, [97]⟩, .array 16 true, .unquoted ⟨31, [49]⟩, .mixedContainer, .unquoted ⟨29, [98]⟩,
+           .operator .eq, .unquoted ⟨27, [99]⟩, .array 9 false, .unquoted ⟨19, [120]⟩, .endTok 7,
+           .unquoted ⟨11, [100]⟩, .operator .eq, .unquoted ⟨9, [101]⟩,
+           .unquoted ⟨5, [102]⟩, .operator .eq, .unquoted ⟨3, [103]⟩, .endTok 1] false := by
+  refine ⟨by decide +kernel, by decide +kernel⟩
+
+/-- … without the group `d = e` behind the container the same elements come out as elements -/
+example : (run [.unquoted [97], .arrayStart, .unquoted [49], .mixedMode, .unquoted [98], .operator .eq, .unquoted [99],
+      .arrayStart, .unquoted [120], .end, .unquoted [102], .unquoted [103], .end] (State.init 32 2)).1.out =
+    [97, 61, 123, 10, 32, 32, 49, 32, 98, 61, 99, 32, 123, 10, 32, 32, 32, 32, 120, 10, 32, 32, 125, 10,
+     32, 32, 102, 32, 103, 10, 125] := by
+  decide +kernel
+
+/-- Known finding `operator-under-stale-mixed-mode` (the call-list twin of C14's
+`roundtrip-mixed-nested-operator`), on the models.  `a, [, 1, mixed, b =, { c > d }, ]`: the object is opened
+while the mixed mode of the enclosing array is on, and `write_end` is what clears the flag, so
+`write_operator(>)` inside the object takes the mixed branch: it writes `>` bare and leaves the machine waiting
+for `=`, the value's preamble adds it — `c>=d`, read back as `c`, `Operator(>=)`, `d`.  Same root cause: one
+flag instead of a per-depth stack. -/
+theorem C15_known_operator_under_stale_mixed_mode :
+    (run [.unquoted [97], .arrayStart, .unquoted [49], .mixedMode, .unquoted [98], .operator .eq,
+        .objectStart, .unquoted [99], .operator .gt, .unquoted [100], .end, .end] (State.init 32 2)).1.out =
+      [97, 61, 123, 10, 32, 32, 49, 32, 98, 61, 123, 10, 32, 32, 32, 32, 99, 62, 61, 100, 10, 32, 32, 125, 10, 125] ∧
+    TextTape.parse [97, 61, 123, 10, 32, 32, 49, 32, 98, 61, 123, 10, 32, 32, 32, 32, 99, 62, 61, 100, 10, 32, 32, 125,
+        10, 125] =
+      .ok [.unquoted ⟨26, [97]⟩, .array 11 true, .unquoted ⟨20, [49]⟩, .mixedContainer, .unquoted ⟨18, [98]⟩,
+           .operator .eq, .object 10 false, .unquoted ⟨10, [99]⟩, .operator .ge, .unquoted ⟨7, [100]⟩, .endTok 6,
+           .endTok 1] false := by
+  refine ⟨by decide +kernel, by decide +kernel⟩
+
+/-- … outside an array part the same object is written `c > d` -/
+example : (run [.unquoted [98], .objectStart, .unquoted [99], .operator .gt, .unquoted [100], .end]
+      (State.init 32 2)).1.out = [98, 61, 123, 10, 32, 32, 99, 32, 62, 32, 100, 10, 125] := by
   decide +kernel
 
 /-- **I/O errors** ("misordered calls … return an error or well-defined output, never a panic",
